@@ -43,8 +43,8 @@ PROFILE = gen.profile(
 
 
 def plan(tier, seed, build, scale):
-    n = int((1400 if tier == "quick" else 18000) * scale)
-    per = max(1, n // (8 if tier == "quick" else 32))
+    n = int((1400 if tier == "quick" else 80000) * scale)
+    per = max(1, n // (8 if tier == "quick" else 64))
     units = []
     a = 0
     while a < n:
